@@ -8,7 +8,7 @@ from proto import T
 
 RULE = ('all pairs and sampled triples from a pool of plain symbols, wrappers around three different user classes exposing key / '
         'is_exception (one also aliases), and WITH pairs, with keys chosen so that tuple order and string order of renderings '
-        'differ; Spec on the real code: == iff key and flag (both parts for WITH; plain never equals WITH), != its negation, equal '
+        'differ, and plain / wrapped symbols whose key spells like the rendering of a WITH pair of the pool; Spec on the real code: == iff key and flag (both parts for WITH; plain never equals WITH), != its negation, equal '
         '=> same hash, truthy, copy equal with aliases kept, for different renderings exactly one of a<b, b<a and it is the string '
         'order (so sorting is consistent across kinds). Key normalisation: every key string over a small alphabet (exhaustive up to '
         'length 3 quick / 4 thorough) and malformed keys (empty, blank, bytes, None, numbers) against the model\'s normKey. '
@@ -48,6 +48,11 @@ def pool():
     for l, e in [('GPL', 'Classpath'), ('GPL 2.0', 'Classpath'), ('GPL', 'mit'), ('mit', 'GPL'), ('GPL', 'Classpath')]:
         out.append(('with', [T('with'), l, False, e, True], le.LicenseWithExceptionSymbol(le.LicenseSymbol(l), le.LicenseSymbol(e, is_exception=True))))
     out.append(('with', [T('with'), 'GPL', True, 'Classpath', True], le.LicenseWithExceptionSymbol(le.LicenseSymbol('GPL', is_exception=True), le.LicenseSymbol('Classpath', is_exception=True))))
+    # plain and wrapped symbols whose key spells like the rendering of a WITH pair of the pool: never equal to that pair
+    for k in ('GPL WITH Classpath', 'GPL WITH mit', 'GPL with Classpath'):
+        for ex in (False, True):
+            out.append(('plain', [T('sym'), k, ex], le.LicenseSymbol(k, is_exception=ex)))
+        out.append(('like0', [T('sym'), k, False], le.LicenseSymbolLike(U1(k, False))))
     return out
 
 
